@@ -681,6 +681,22 @@ def rule_listed_dir(ctx):
     rule_listed(ctx, "C02.LISTED")
 
 
+def rule_fallback_pair(ctx):
+    p = ctx.p
+    f = p.method("Server", "get_paths")
+    real_idx, virt_idx = resolver_indices(p)
+    rets = [r for r in walk_no_nested(f) if isinstance(r, ast.Return) and isinstance(r.value, ast.Tuple) and len(r.value.elts) == 2]
+    for br in walk_no_nested(f):
+        if isinstance(br, ast.If) and any(isinstance(c, ast.Call) and is_method_call(c, "is_relative_to") for c in ast.walk(br.test)):
+            names_real = {src(r.value.elts[real_idx]) for r in rets}
+            names_virt = {src(r.value.elts[virt_idx]) for r in rets}
+            stores = {t.id for n in br.body if isinstance(n, ast.Assign) for t in n.targets if isinstance(t, ast.Name)}
+            if stores & names_real:
+                ctx.ob("C02.RES", br, "when the real path is reset to the base directory the virtual path is reset to '/' with it", bool(stores & names_virt),
+                       "the is_relative_to fallback resets the real path to the base directory but leaves the virtual path as it was: the pair no longer names one location",
+                       construct="get_paths:fallback resets real only")
+
+
 def rule_home_abs(ctx):
     p = ctx.p
     ui = p.method("User", "__init__")
@@ -693,4 +709,4 @@ def rule_home_abs(ctx):
            "User.__init__ accepts a relative home_path: the session's working directory starts relative, the resolver's `parts[1:]` drops its first component", construct="home:relative accepted")
 
 
-RULES = [rule_res, rule_sink, rule_cwd, rule_only, rule_memo, rule_lookup, rule_home, rule_listed_dir, rule_home_abs]
+RULES = [rule_res, rule_sink, rule_cwd, rule_only, rule_memo, rule_lookup, rule_home, rule_listed_dir, rule_home_abs, rule_fallback_pair]
